@@ -86,6 +86,20 @@ def run_case(case):
 		gz = case.get('gz', [False] * len(genomes))
 		gdir = os.path.join(root, 'queries', 'genomes')
 		paths = [os.path.join(gdir, g + ('.fasta.gz' if z else '.fasta')) for g, z in zip(genomes, gz)]
+		names = case.get('names')
+		if names:
+			# the same genomes copied under caller-chosen (possibly colliding) file names: only the label column may change
+			import gzip
+			gdir = os.path.join(tmp, 'in')
+			new = []
+			for src, rel in zip(paths, names):
+				dst = os.path.join(gdir, rel)
+				os.makedirs(os.path.dirname(dst), exist_ok=True)
+				raw = (gzip.open if src.endswith('.gz') else open)(src, 'rb').read()
+				with (gzip.open if rel.endswith('.gz') else open)(dst, 'wb') as f:
+					f.write(raw)
+				new.append(dst)
+			paths = new
 		out = os.path.join(tmp, 'out.' + fmt)
 		argv = ['--db', root, 'query', '-f', fmt, '-o', out]
 		argv.append('--progress' if case.get('progress') else '--no-progress')
@@ -97,8 +111,8 @@ def run_case(case):
 		elif channel == 'listfile':
 			lf = os.path.join(tmp, 'list.txt')
 			with open(lf, 'w') as f:
-				for g, z in zip(genomes, gz):
-					f.write(g + ('.fasta.gz' if z else '.fasta') + '\n')
+				for g, z, pth in zip(genomes, gz, paths):
+					f.write((os.path.relpath(pth, gdir) if names else g + ('.fasta.gz' if z else '.fasta')) + '\n')
 					if case.get('blank_lines'):
 						f.write('\n')
 			argv += ['-l', lf, '--ldir', gdir]
@@ -114,7 +128,9 @@ def run_case(case):
 		exp = [_single_row(g, fmt, tmp) for g in genomes]
 		if channel == 'sigfile':
 			pass   # stored IDs are the file labels computed by `signatures create`
-		ok = len(rows) == len(genomes) and all(tuple(r) == tuple(e) for r, e in zip(rows, exp)) and [r[0] for r in rows] == genomes
+		labels = [spec_label(nm) for nm in names] if names else genomes
+		exp = [(lab,) + tuple(e[1:]) for lab, e in zip(labels, exp)]
+		ok = len(rows) == len(genomes) and all(tuple(r) == tuple(e) for r, e in zip(rows, exp)) and [r[0] for r in rows] == labels
 		return {'ok': bool(ok), 'expected': [e[0:2] for e in exp], 'actual': [r[0:2] for r in rows]}
 	finally:
 		shutil.rmtree(tmp, ignore_errors=True)
@@ -142,6 +158,14 @@ def bounded(tier, seed):
 		cases.append({'kind': 'cli', 'genomes': gs, 'gz': [rnd.random() < .4 for _ in gs], 'fmt': rnd.choice(['csv', 'csv', 'json']),
 		              'channel': rnd.choice(['positional', 'listfile', 'sigfile']), 'cores': rnd.choice([None, 1, 2, 5]),
 		              'progress': rnd.random() < .3, 'blank_lines': rnd.random() < .3})
+	# different genomes whose derived labels coincide (same file name in two directories, two FASTA extensions, plain + gzip)
+	collide = [['run1/contigs.fasta', 'run2/contigs.fasta'], ['x.fasta', 'x.fna'], ['x.fa', 'x.fa.gz'], ['a/s.fasta', 'b/s.fasta', 'c/s.fasta.gz'], ['a/g.fasta', 'h.fasta', 'b/g.fna.gz']]
+	for i, nm in enumerate(collide if tier == 'quick' else collide * 4):
+		gs = rnd.sample(allg, len(nm))
+		for channel in (('positional', 'listfile', 'sigfile') if tier != 'quick' else (('positional', 'listfile', 'sigfile')[i % 3], 'positional')):
+			cases.append({'kind': 'cli', 'genomes': gs, 'names': nm, 'gz': [False] * len(gs), 'fmt': 'json' if i % 3 == 2 else 'csv', 'channel': channel,
+			              'cores': rnd.choice([None, 2]), 'progress': False})
+			cases.append({'kind': 'cli', 'genomes': gs[::-1], 'names': nm, 'gz': [False] * len(gs), 'fmt': 'csv', 'channel': channel, 'cores': None, 'progress': False})
 	n, failures, sample = 0, [], []
 	for c in cases:
 		r = run_case(c)
